@@ -685,11 +685,6 @@ def oracle(w, cfg, t, x_abs, res):
         return (res["stage"], f"{res['stage']} raised {type(res['exc']).__name__}: {str(res['exc'])[:160]}")
     if not same(res["x"], res["y"]):
         return ("mismatch", f"loads(dumps(x)) = {res['y']!r:.200} differs from x = {res['x']!r:.200}")
-    h = res["hooks"]
-    if h is not None and not has_union_float(w, t):
-        n = count_float_leaves(w, t, x_abs)
-        if h.n_un != 2 * n or h.n_st != n:   # unstructure + dumps call the un-hook, loads the st-hook (+ structure below)
-            pass
     return None
 
 
@@ -813,6 +808,22 @@ def f34(case):
                  or (case.get("fmt") == "json" and case.get("stage") == "mismatch" and any(v[0] == "b" for v in kt[1]))))
 
 
+@framework.finding("msgspec-plain-str-enum-mapping-key")
+def f20(case):
+    kt = _key_of_map(case)
+    return (case.get("fmt") == "msgspec" and case.get("minimal") is True and case.get("stage") == "dumps"
+            and case.get("exc") == "TypeError" and isinstance(kt, (list, tuple)) and kt[0] == "enum"
+            and case["world"]["enums"][kt[1]]["kind"] == "plain"
+            and any(v[0] == "s" for v in case["world"]["enums"][kt[1]]["vals"]))
+
+
+@framework.finding("counter-keys-not-unstructured")
+def f35(case):
+    t = case.get("ty")
+    return (isinstance(t, (list, tuple)) and t[0] == "counter" and case.get("minimal") is True
+            and case.get("dict_variant_passes") is True)
+
+
 PROVISIONAL = [
     {"id": "F17", "property": "C16", "kind": "finding", "signature": "json-int-enum-mapping-key",
      "what": "json/msgspec converters: a mapping keyed by an Enum with int values (plain or int mix-in) is dumped with the keys as JSON strings (\"1\") and loads then fails: E(\"1\") is not a valid member"},
@@ -822,6 +833,10 @@ PROVISIONAL = [
      "what": "msgspec converter: deque[T] whose element handler is a pass-through (identity / to_builtins) is handed to msgspec unchanged, which cannot encode deques: dumps raises TypeError"},
     {"id": "F34", "property": "C16", "kind": "finding", "signature": "json-nonstr-literal-mapping-key",
      "what": "json/msgspec converters: a mapping keyed by a Literal with int or bool members comes back with string keys (\"1\", \"true\") that the literal hook rejects (msgspec: the encoder refuses bool keys)"},
+    {"id": "F20", "property": "C16", "kind": "finding", "signature": "msgspec-plain-str-enum-mapping-key",
+     "what": "msgspec converter: a mapping keyed by a plain Enum with str values whose value type needs a cattrs hook keeps the members as keys, and the msgspec encoder refuses them: dumps raises TypeError"},
+    {"id": "F35", "property": "C16", "kind": "finding", "signature": "counter-keys-not-unstructured",
+     "what": "Counter[K]: mapping_unstructure_factory takes the key type to be the tuple (K,), so keys are never unstructured (also on a plain Converter): json cannot dump Counter[bytes|date|datetime|plain Enum], pyyaml cannot dump Counter[Enum], a user hook for K is skipped when dumping but applied when loading; dict[K, int] with the same entries works"},
 ]
 
 
@@ -898,6 +913,10 @@ WITNESSES = [
     ("json-bool-mapping-key", "msgspec", [], ("dict", "bool", "int"), ("d", [(("b", False), ("i", 1))])),
     ("msgspec-deque-passthrough", "msgspec", [], ("deque", "int"), ("q", [("i", 1)])),
     ("json-nonstr-literal-mapping-key", "json", [], ("dict", ("lit", [("i", 1)]), "int"), ("d", [(("i", 1), ("i", 1))])),
+    ("msgspec-plain-str-enum-mapping-key", "msgspec", [{"kind": "plain", "vals": [("s", "a")]}],
+     ("dict", ("enum", 0), ("opt", "int")), ("d", [(("e", 0, 0), ("i", 1))])),
+    ("counter-keys-not-unstructured", "json", [], ("counter", "bytes"), ("d", [(("y", "61"), ("i", 1))])),
+    ("counter-keys-not-unstructured", "yaml", [{"kind": "str", "vals": [("s", "a")]}], ("counter", ("enum", 0)), ("d", [(("e", 0, 0), ("i", 2))])),
 ]
 
 
@@ -998,6 +1017,13 @@ def one_case(chk, drv, R, w, fmt, mod, cfg, t, x, corr_fail, tag=""):
         res2 = run_impl(R, fmt, mod, cfg, t2, x2)
         mcase = {"fmt": fmt, "cfg": cfg, "world": w, "ty": t2, "x": x2, "minimal": True, "original": {"ty": t, "x": x}}
         mcase.update(case_stage(bad2, res2))
+        if not isinstance(t2, str) and t2[0] == "counter":
+            t3 = ("dict", t2[1], "int")
+            try:
+                r3 = run_impl(R, fmt, mod, cfg, t3, x2)
+                mcase["dict_variant_passes"] = check_oracle(w, cfg, t3, x2, r3) is None
+            except Exception:  # noqa: BLE001
+                mcase["dict_variant_passes"] = False
         chk.violation(f"C16 oracle [{fmt}{' +float hooks' if cfg.get('uhook') is not None else ''}] {bad2[1]} "
                       f"[T={ty_sx(w, t2)} x={terms.canon_sx(x2)[:200]}]", mcase)
     return bad
@@ -1032,7 +1058,7 @@ def run(chk: framework.Check):
             chk.note("witness-stale:" + sig)
         else:
             chk.note("witness-reproduced:" + sig)
-    n_worlds = 34 if chk.tier == "quick" else 340
+    n_worlds = 300 if chk.tier == "quick" else 3000
     for wi in range(n_worlds):
         w = G.world()
         try:
@@ -1052,6 +1078,8 @@ def run(chk: framework.Check):
             for fmt in fmts:
                 cfg = {"detailed": rng.random() < 0.6, "forbid": rng.random() < 0.3,
                        "uhook": (rng.choice([2000, 1, -3, 7]) if rng.random() < 0.35 else None)}
+                if cfg["uhook"] is not None and has_union_float(w, t):
+                    cfg["uhook"] = None   # a float in a native union is unstructured by run-time class (hook) but passed through when structuring
                 if uses_nonnative_union(w, t, fmt):
                     chk.note("skipped:non-native-union:" + fmt)
                     continue
